@@ -53,7 +53,9 @@ func (d *directWriter) bytes() []byte {
 	return b
 }
 
-func runDeferredImpl(work string, target uint64, v1Given bool, o wOpts, roots []cid.Cid, ops VL) Val {
+// pre: nil = nothing at the output path; otherwise a file with these bytes (possibly none) is there
+// before the writer is constructed (path target only)
+func runDeferredImpl(work string, target uint64, v1Given bool, o wOpts, roots []cid.Cid, ops VL, pre []byte) Val {
 	ctx := context.Background()
 	dir, err := os.MkdirTemp(work, "df")
 	if err != nil {
@@ -63,6 +65,11 @@ func runDeferredImpl(work string, target uint64, v1Given bool, o wOpts, roots []
 	path := filepath.Join(dir, "out.car")
 	dpath := filepath.Join(dir, "direct.car")
 	var stream bytes.Buffer
+	if target == 0 && pre != nil {
+		if err := os.WriteFile(path, pre, 0o644); err != nil {
+			panic(err)
+		}
+	}
 	opts := o.v2Given(v1Given)
 	var dcw *deferred.DeferredCarWriter
 	if target == 0 {
@@ -153,17 +160,27 @@ func runDeferredImpl(work string, target uint64, v1Given bool, o wOpts, roots []
 	return obs
 }
 
-func deferredInput(target uint64, v1Given bool, o wOpts, roots []cid.Cid, ops VL) Val {
+func deferredInput(target uint64, v1Given bool, o wOpts, roots []cid.Cid, ops VL, pre []byte) Val {
 	var rv Val = cidsVal(roots)
 	if roots == nil {
 		rv = VT("nil")
 	}
-	return VL{VN(target), vbool(v1Given), o.val(), rv, ops}
+	var pv Val = VT("none")
+	if pre != nil {
+		pv = VB(pre)
+	}
+	return VL{VN(target), vbool(v1Given), o.val(), rv, ops, pv}
 }
 
 func init() {
 	registerReplay("deferred", func(c *Ctx, in Val) Val {
 		l := in.(VL)
-		return runDeferredImpl(c.Work, uint64(l[0].(VN)), uint64(l[1].(VN)) != 0, wOptsFromVal(l[2]), cidsFromVal(l[3]), l[4].(VL))
+		var pre []byte
+		if len(l) > 5 {
+			if b, ok := l[5].(VB); ok {
+				pre = append([]byte{}, b...)
+			}
+		}
+		return runDeferredImpl(c.Work, uint64(l[0].(VN)), uint64(l[1].(VN)) != 0, wOptsFromVal(l[2]), cidsFromVal(l[3]), l[4].(VL), pre)
 	})
 }
